@@ -220,7 +220,12 @@ int sqfs_block_processor_sync(sqfs_block_processor_t *proc)
 			return ret;
 	}
 
-	return 0;
+	/*
+	 * A block whose worker failed is still handed back by the pool like
+	 * any other. If nothing was submitted afterwards, nobody has looked
+	 * at the pool status yet, so do it here instead of reporting success.
+	 */
+	return proc->pool->get_status(proc->pool);
 }
 
 int sqfs_block_processor_finish(sqfs_block_processor_t *proc)
